@@ -793,9 +793,21 @@ void retrieveUnitsDependencies(const ModelPtr &flatModel, const ModelPtr &model,
                 flatModel->addUnits(childUnits);
                 flattenUnitsImports(flatModel, childUnits, flatModelUnitsIndex, component);
             } else {
-                transferUnitsRenamingIfRequired(model, flatModel, childUnits, component);
-                u->setUnitAttributeReference(unitIndex, childUnits->name());
-                retrieveUnitsDependencies(flatModel, model, childUnits, component);
+                auto childChangedNames = transferUnitsRenamingIfRequired(model, flatModel, childUnits, component);
+                auto childChange = childChangedNames.find(reference);
+                if ((childChange != childChangedNames.end()) && (childChange->second != childUnits->name())) {
+                    // Equal units already exist in the flat model under another name: refer to those, unless they are the
+                    // very units whose dependencies are being retrieved (units equal to the units they are defined by).
+                    if (childChange->second != u->name()) {
+                        u->setUnitAttributeReference(unitIndex, childChange->second);
+                    } else if (!flatModel->hasUnits(childUnits->name())) {
+                        flatModel->addUnits(childUnits);
+                        retrieveUnitsDependencies(flatModel, model, childUnits, component);
+                    }
+                } else {
+                    u->setUnitAttributeReference(unitIndex, childUnits->name());
+                    retrieveUnitsDependencies(flatModel, model, childUnits, component);
+                }
             }
         }
     }
